@@ -6,6 +6,9 @@ import json, os, subprocess, sys, tempfile, shutil, concurrent.futures as cf
 V='/verif'; BIN=os.environ.get('FC',V+'/bin/fundcheck')
 args=sys.argv[1:]; jobs=6
 if args[:1]==['-j']: jobs=int(args[1]); args=args[2:]
+only_props=None
+if args[:1]==['--own']: only_props='own'; args=args[1:]   # only each seed's own property (fast; detected_by is then partial and not rewritten)
+RULES={}
 seeds=args or sorted(d for d in os.listdir(V+'/seeded') if os.path.isfile(f'{V}/seeded/{d}/patch.diff'))
 props=subprocess.run([BIN,'-list'],capture_output=True,text=True).stdout.split()
 env=dict(os.environ,GOFLAGS='-mod=mod',GOPROXY='off',GOSUMDB='off',GOTOOLCHAIN='local',GOWORK='off',VERIF_CONTROL='1')
@@ -16,11 +19,26 @@ def run(seed):
         subprocess.run('git -C /repo archive HEAD | tar -x -C '+tmp,shell=True,check=True)
         ap=subprocess.run(['git','apply','--whitespace=nowarn',f'{V}/seeded/{seed}/patch.diff'],cwd=tmp,capture_output=True,text=True)
         if ap.returncode!=0: return seed,None,'patch does not apply: '+ap.stderr.strip()[:200]
-        det,err=[],[]
-        for p in props:
-            r=subprocess.run([BIN,'-property',p,'-tier','quick'],env=dict(env,VERIF_REPO=tmp),capture_output=True,text=True)
-            if r.returncode==1: det.append(p)
-            elif r.returncode!=0: err.append(p+':'+(r.stdout.strip().splitlines() or ['?'])[-1][:120])
+        det,err,rules=[],[],{}
+        own=json.load(open(f'{V}/seeded/{seed}/meta.json'))['property']
+        if only_props=='own':
+            r=subprocess.run([BIN,'-property',own,'-tier','quick'],env=dict(env,VERIF_REPO=tmp),capture_output=True,text=True)
+            outs={own:(r.returncode,r.stdout)}
+        else:
+            # one process, every property on the once-loaded program (-all): sections end with "ALL-RESULT <id> rc=<n>"
+            r=subprocess.run([BIN,'-all'],env=dict(env,VERIF_REPO=tmp),capture_output=True,text=True)
+            outs={}; cur=[]
+            for l in r.stdout.splitlines():
+                if l.startswith('ALL-RESULT '):
+                    _,pid,rc=l.split(); outs[pid]=(int(rc.split('=')[1]),'\n'.join(cur)); cur=[]
+                else: cur.append(l)
+            if not outs: err.append('all:'+(r.stdout.strip().splitlines() or ['?'])[-1][:160])
+        for p,(rc,out) in sorted(outs.items()):
+            if rc==1:
+                det.append(p)
+                rules[p]=sorted({l.split()[1].split(':')[0] for l in out.splitlines() if l.startswith('CONTROL-VIOLATION ')})
+            elif rc!=0: err.append(p+':'+(out.strip().splitlines() or ['?'])[-1][:120])
+        RULES[seed]=rules
         return seed,det,'; '.join(err)
     finally:
         shutil.rmtree(tmp,ignore_errors=True)
@@ -30,7 +48,12 @@ missed=0
 for seed,det,err in res:
     mp=f'{V}/seeded/{seed}/meta.json'; m=json.load(open(mp))
     if det is None: print(f'{seed:28s} {err}'); continue
-    m['detected_by']=det; m['not_detected_by']=[p for p in [m['property']] if p not in det]
+    if only_props!='own':
+        m['detected_by']=det
+    elif m['property'] in det and m['property'] not in m.get('detected_by',[]):
+        m['detected_by']=sorted(set(m.get('detected_by',[]))|{m['property']})
+    m['not_detected_by']=[p for p in [m['property']] if p not in det]
+    m.setdefault('violated_rules',{}).update(RULES.get(seed,{}))
     json.dump(m,open(mp,'w'),indent=1)
     own='own' if m['property'] in det else ('OTHER-ONLY' if det else 'MISSED')
     if own!='own': missed+=1
